@@ -624,6 +624,12 @@ pub(crate) mod verif_sem {
         #[kani::stub(alloc::alloc::dealloc, crate::verif::common::stub_dealloc)]
         #[kani::stub(alloc::alloc::realloc, crate::verif::common::stub_realloc)]
         fn hist_c18_p2_n5() { let _ = hist::<NoopLock, _>(&mut KaniSrc, 2 | (2 << 2), 5, P18); }
+        #[kani::proof]
+        #[kani::unwind(5)]
+        #[kani::stub(alloc::alloc::alloc, crate::verif::common::stub_alloc)]
+        #[kani::stub(alloc::alloc::dealloc, crate::verif::common::stub_dealloc)]
+        #[kani::stub(alloc::alloc::realloc, crate::verif::common::stub_realloc)]
+        fn hist_c18_p2_n4() { let _ = hist::<NoopLock, _>(&mut KaniSrc, 2 | (2 << 2), 4, P18); }
 
         macro_rules! hist_proof {
             ($name:ident, $lock:ty, $n:expr, $p:expr, $cfg:expr, $unw:expr) => {
@@ -670,6 +676,7 @@ pub(crate) mod verif_sem {
         hist_proof!(hist_c07_f_p2_n5_check, CheckLock, 5, P07, 1 | (2 << 2), 6);
         hist_proof!(hist_c17_x_p0_n3, NoopLock, 3, P17, 2 | (0 << 2), 4);
         hist_proof!(hist_c17_x_p0_n4, NoopLock, 4, P17, 2 | (0 << 2), 5);
+        hist_proof!(hist_c17_x_p2_n4, NoopLock, 4, P17, 2 | (2 << 2), 5);
         hist_proof!(hist_c17_x_p2_n5, NoopLock, 5, P17, 2 | (2 << 2), 6);
         hist_proof!(hist_c17_x_p0_n5, NoopLock, 5, P17, 2 | (0 << 2), 6);
         hist_proof!(hist_c17_x_p2_n6, NoopLock, 6, P17, 2 | (2 << 2), 7);
